@@ -73,7 +73,9 @@ OPEN_ITEMS = []
 
 ASSUMPTIONS = [
     "Python values are canonicalised by the harness: int/bool/finite float to the reduced rational they denote (so 1 == 1.0 == True coincide), every other hashable value to a code such that codes are equal iff the values are == (assigned through a dict, i.e. by hash and ==); where the code observes the difference (RangeDomain.contains: isinstance(value, int)) the probe carries the flag isinstance(value, int); floats are never used where an index is expected",
-    "a PatternedTensor given as weights is modelled by the dense tensor it denotes (to_dense()); the patterned representation itself is C06/C13's subject.  Dense, PatternedTensor.eye and PatternedTensor.full inputs are generated",
+    "fac cases: a PatternedTensor given as weights is modelled by the dense tensor it denotes (to_dense()).  pfac cases: the harness observes the REPRESENTATION of the weights (physical data, paxes, vaxes, default; PhysicalAxis objects named by identity) and Coq computes the dense denotation from it (Model.DomainPat.pat_dense, with C06's model of Axis.index: stored element where every vaxis decodes the position, the default where one reports a miss); apply, ==, the setter's shape check and to_dense() are judged against that",
+    "+inf / -inf among weights and defaults are coded as the non-dyadic rationals +-3000001/3 (no float equals them, so the coding is injective and preserves ==); NaN is never generated",
+    "pfac: out-of-range ints of a RangeDomain are not probed on patterned weights (PatternedTensor.__getitem__ returns the default at the first index that is off the pattern without range-checking later indices; its range checks are `if __debug__` assertions)",
     "weights are dyadic rationals exactly representable in float32; tensors are compared exactly (as rationals) inside Coq",
     "torch.tensor(nested lists) is modelled from the observed behaviour of torch's compute_sizes / recursive_store (sizes from the first elements, lengths validated only for non-empty tensors)",
     "exceptions are compared by class (KeyError, IndexError, ValueError, TypeError, other); messages are not modelled",
@@ -1077,6 +1079,7 @@ def run(tier, seed):
     cov = dict(evaluations=total, distinct_nontrivial=distinct,
                rule="dom: every value list of length <= 3 over {0, 1, 'a', None, True} (duplicates and the cross-type duplicate 1/True included) as list, tuple and generator; random domains of size 0..8 over 20 mixed hashable values given as list/tuple/generator/iterator/dict (20% with duplicates); RangeDomain sizes 0,1,2,3,5,inf; each with contains/numberize on members and non-members, denumberize on -n-2..n+1, ==/!= against 5-8 other domains. "
                     "fac: (domain sizes, weight shape) pairs up to rank 3 over sizes 0..3 (quick: all pairs with sizes <= 2, every matching pair, 400 sampled others; thorough: all 7225) in the forms nested list / Tensor / PatternedTensor (default dtype) and, for every matching pair and a seventh of the others, float64 Tensor / PatternedTensor with entries not representable in float32, plus eye/full patterned tensors, infinite domains and domains built from generators, malformed nested lists (ragged, mixed depth, empty rows); apply on every complete value tuple, prefixes, over-long and unknown values; == against 6-9 other factors. "
+                    "pfac (weights = PatternedTensor, judged against the Gallina denotation of the observed representation): every pattern over typed shapes of rank 1-2 with dimension types unit/2/3/2x2/2+2/.. (shared axes = diagonals, SumAxis padding, products), defaults cycling through 1.75, -inf, 0, inf, -1, 7, 2.5; PatternedTensor.eye(1..4) in the Real/Log/Viterbi/Bool semirings, from_int, full, PatternedTensor(dense, default=d) incl. size-0 and size-1 dims; 220 random typed patterns (products, sums, one-hot dims, +-inf stored); 160 conversion chains (T, permute, clone, freshen, default_to, t[i], stack, unsqueeze, flatten, dim_to_dense, mul, add, expand); 60 shapes the setter must refuse; 110 histories on ONE factor object (f.weights = other, copy_, default re-assigned, physical.mul_, element overwritten, neg_, *=) with applies after every step.  Per segment: apply on every complete value tuple (<= 64; stored and unstored positions), prefixes, over-long, unknown values, a second round of applies, == against self / clone with equal-not-identical domains / dense copy / one element changed, representation of the weights before and after. "
                     "bind: every pairing of an edge label (terminal/nonterminal, type over {A,B}, arity 0..3) with a factor (domains over {D2, D3, R2}, arity 0..3) under pre-states (label unregistered / registered / clashing / nonterminal clash / already bound; node labels mapped to equal / different / no domain), all matching pairings under every pre-state, equal-by-content vs different domain in every position, new_finite_domain / new_finite_factor grids, random histories; FactorGraph and FGG alternate; shape() on label lists, tuples, node lists, EdgeLabel, Edge. "
                     "non-trivial = domain of size >= 2 (or range size >= 2), factor of rank >= 1, history with >= 3 calls including a factor binding; distinct by spec",
                samples=samples, patterned_weight_segments=seg_stats, phase_seconds=phase, generator_histogram=hist, verdict_histogram=verdicts, kernel_reevaluated=nk_total,
@@ -1105,7 +1108,7 @@ def core_jsonable(x):
 
 MANIFEST = dict(
     level="proof",
-    text="Coq theorems about a Gallina model that follows fggs/domains.py, fggs/factors.py and InterpretationMixin statement by statement: C20_bijection (numberize/denumberize mutually inverse between distinct values and 0..size-1, contains agrees, equality by content; RangeDomain on the integers), C20_shape (a FiniteFactor accepts exactly weights of shape map size domains; apply is the weight at the row-major position of the numberized values; factor equality by domains and elementwise weights), C20_binding (add_factor succeeds iff terminal, label table consistent, arities agree, every node label mapped to an equal domain, label not already bound), all at full strength for any iterable of values (F14 and F15 are repaired in /repo 19d007a / 7d2f845; their refutations are kept only about the explicitly named old definitions), and RangeDomain.contains holds exactly for the ints a denumberize yields (repaired in /repo 973b650; Python values are modelled as equality class + isinstance-int flag).  No known finding is left.  The model is tied to /repo by running both on generated domains, factors and call histories; boolean oracles proved sound in Coq judge every implementation answer.",
-    note="Trusted: Coq kernel + vm_compute, extraction cross-checked against vm_compute, the Python harness that canonicalises values (numbers to rationals, other hashables to codes by ==) and observes object attributes; PatternedTensor inputs are modelled by their dense denotation.",
+    text="Coq theorems about a Gallina model that follows fggs/domains.py, fggs/factors.py and InterpretationMixin statement by statement: C20_bijection (numberize/denumberize mutually inverse between distinct values and 0..size-1, contains agrees, equality by content; RangeDomain on the integers), C20_shape (a FiniteFactor accepts exactly weights of shape map size domains; apply is the weight at the row-major position of the numberized values; factor equality by domains and elementwise weights), C20_binding (add_factor succeeds iff terminal, label table consistent, arities agree, every node label mapped to an equal domain, label not already bound), all at full strength for any iterable of values (F14 and F15 are repaired in /repo 19d007a / 7d2f845; their refutations are kept only about the explicitly named old definitions), C20_apply_patterned (weights given as a PatternedTensor of any pattern and default: a case accepted by facp_check has every complete apply equal to the element the representation denotes at the numberized position -- the stored element or the default; C20_pat_dense_at / _wf / C20_pat_at_unstored / _stored about the dense denotation computed in Coq), and RangeDomain.contains holds exactly for the ints a denumberize yields (repaired in /repo 973b650; Python values are modelled as equality class + isinstance-int flag).  No known finding is left.  The model is tied to /repo by running both on generated domains, factors and call histories; boolean oracles proved sound in Coq judge every implementation answer.",
+    note="Trusted: Coq kernel + vm_compute, extraction cross-checked against vm_compute, the Python harness that canonicalises values (numbers to rationals, other hashables to codes by ==) and observes object attributes; PatternedTensor inputs are modelled by their dense denotation (fac: as to_dense() reports it; pfac: computed in Coq from the observed physical/paxes/vaxes/default).",
     technique="Coq proof (model + theorems) + model/implementation correspondence with verified-spec oracle",
     design_ref="DESIGN.md section 6, C20")
